@@ -61,6 +61,11 @@ CLAIMED = {
             "Emulsion dtype bookkeeping) over 7 grid families x modes 0-3 x width {unset, 0, symbolic} x refine; "
             "binary-image locator replaced by symbolic candidates, least_squares by a contract stub; z3/rewriter "
             "decide class table, amplitude count, carried width/radius/position, common layout", "§4 C19"),
+    "C20": ("bounded symbolic execution of Emulsion / EmulsionTimeCourse / DropletTrack / DropletTrackList under "
+            "every sequence of 2-3 operations (12 / 7 / 4 operations; third operation a solver-chosen index) with "
+            "all droplet parameters, times and thresholds symbolic; after every step content = list model, "
+            "aliasing probe on caller-held droplets, sources of copies/slices unchanged, summary queries = "
+            "definitions and order independence; decided by z3 / the rewriter", "§4 C20"),
 }
 
 NOT_YET = {}
